@@ -52,7 +52,12 @@ def cases(draw, tier):
     if max_columns is None and draw(st.booleans()):
         keys = draw(st.lists(st.text(alphabet=alpha, min_size=0, max_size=2), min_size=1, max_size=4, unique=True))
         base = {k: draw(st.integers(0, 3)) for k in keys}
-    return {"train": train, "test": test, "max_dict_size": draw(st.sampled_from([65536, 65536, 5, 3, 2])),
+    prior = None
+    if draw(st.booleans()):
+        # history: the same estimator object was fitted before, on other strings and possibly with another max_columns
+        prior = {"strings": draw(st.lists(strings(alpha2, max_len), min_size=1, max_size=4)),
+                 "max_columns": draw(st.sampled_from([None, 2, 7, 64, 4096, 65536])) if max_columns is not None else None}
+    return {"train": train, "test": test, "prior": prior, "max_dict_size": draw(st.sampled_from([65536, 65536, 5, 3, 2])),
             "max_columns": max_columns, "base": base, "random_state": draw(st.integers(0, 1000))}
 
 
@@ -94,6 +99,14 @@ def check(case):
     r.label("max_columns:%s" % mc, "max_dict_size:%d" % mds, "base:%s" % (base is not None))
     est = L["LZ"](max_dict_size=mds, max_columns=mc, base_dictionary=dict(base) if base is not None else None,
                   random_state=case["random_state"])
+    if case.get("prior"):
+        r.label("previously-used-estimator")
+        if mc is not None and case["prior"]["max_columns"] is not None:
+            est.set_params(max_columns=case["prior"]["max_columns"])
+        sp_, _o = call(est.fit_transform, list(case["prior"]["strings"]))
+        if sp_ == "ok":
+            call(est.transform, list(test))
+        est.set_params(max_columns=mc)
     s, M = call(est.fit_transform, list(train))
     if s == "exc":
         r.fail(exc_kind(M), site + ".fit_transform", exc_detail(M))
